@@ -97,9 +97,11 @@ CLAIMED = {
               "apply() is the crash point; state-before = state-after "
               "oracle; ddmin-minimised replay",
     text="All 57 concrete transformation classes are applied, with "
-         "constructor variants and 23 option dicts, to seeded nodes of "
+         "constructor variants, 23 general and class-specific option dicts "
+         "(tile/chunk sizes, collapse, ...), to seeded nodes of "
          "generated modules, both in random histories (<=8 ops) and in "
-         "sweeps over every node of a class's preferred kind. After every "
+         "sweeps (biased to transformations whose apply() has several "
+         "steps) over every node of a class's preferred kind. After every "
          "TransformationError the written code, every symbol table (names, "
          "tags, argument lists) and the node-by-node tree digest must equal "
          "the snapshot taken before. Refusal sites reached are reported with "
@@ -118,7 +120,8 @@ CLAIMED = {
          "taskloop transformations (plus loop restructuring) on generated "
          "modules; after each accepted step the writer must refuse or emit "
          "text obeying the three structural rules of the property and "
-         "accepted by gfortran as far as directives are concerned. "
+         "accepted by gfortran (compiled, so that the close-nesting rules of "
+         "the middle end apply) as far as directives are concerned. "
          "Sampling, not proof.",
     design_ref="DESIGN.md 4.8",
     note="gfortran 12 is the reference compiler; mixed OpenMP/OpenACC nests "
@@ -127,15 +130,24 @@ CLAIMED = {
     engine="E4-transhistory",
     technique="deterministic simulation (history dimension only, no "
               "scheduler): seeded histories of symbol-creating "
-              "transformations; scoped-lookup identity check, declaration "
-              "scan and gfortran -fsyntax-only oracle after every accepted "
+              "transformations; symbol-identity check over the writer's "
+              "flattened scopes (references and declaration links), "
+              "declaration scan, gfortran -fsyntax-only and a read-back of "
+              "the written text by the real front end after every accepted "
               "step",
     text="Seeded histories biased to the transformations that add or merge "
          "symbols on generated modules with a local kind parameter, "
          "size-dependent bounds and an inlinable helper with clashing local "
-         "names; after each accepted step every Reference must resolve by "
-         "scoped lookup to the symbol it holds, no name is declared twice and "
-         "the text compiles without declaration-family errors. Sampling.",
+         "names (variants: kind constants also in an imported module with "
+         "PARAMETER arrays and dependent constants; module variables named "
+         "like generated temporaries; the same creator transformation in "
+         "several loop bodies). After each accepted step every Reference and "
+         "every kind/bound/initial-value link of a declaration must hold a "
+         "symbol the written routine declares or sees (a dangling one is "
+         "judged by name: captured or undeclared), no name is declared "
+         "twice, the text compiles without declaration-family errors, and "
+         "read back by the real front end every reference binds at the same "
+         "level (module/routine) as in the tree. Sampling.",
     design_ref="DESIGN.md 4.9",
     note="Seeded history exploration, nothing more: this property has no "
          "schedule and its only fault is the refusal."),
@@ -148,8 +160,9 @@ CLAIMED = {
               "state with garbage in dirty halos as the injected fault, "
               "global single-copy reference",
     text="Seeded LFRic invokes (generated kernel metadata, built-ins, "
-         "stencils, both annexed-dof settings) go through the real pipeline "
-         "and a seeded history of redundant-computation, colouring, OpenMP, "
+         "stencils, field vectors, both annexed-dof settings) go through "
+         "the real pipeline and a seeded history of redundant-computation, "
+         "colouring, OpenMP (single loops and multi-loop parallel regions), "
          "asynchronous-halo and move transformations; the generated text is "
          "interpreted on a 1-D chain mesh per rank. Oracles: every owned dof "
          "equals the global reference at the end; before every loop nest and "
@@ -166,10 +179,13 @@ CLAIMED = {
               "parallel-loop race detector): seeded colouring/OpenMP/OpenACC "
               "transformation histories, structural oracle on the generated "
               "text backed by two-iterations-increment-one-dof detection",
+    
     text="Seeded histories of colouring, OpenMP and OpenACC loop/region "
-         "transformations (dm on and off) on generated invokes with "
-         "INC/READINC/WRITE updates on continuous, any_space and "
-         "discontinuous spaces. After the history, if generation succeeds, "
+         "transformations (random and as coherent colour->loop->region->enter-"
+         "data pipelines, ACCLoopTrans option combinations; dm on and off) "
+         "on generated invokes with INC/READINC/WRITE updates on continuous, "
+         "any_space and discontinuous spaces, field vectors and LMA "
+         "operator arguments. After the history, if generation succeeds, "
          "every parallel cell loop holding a shared-dof incrementing kernel "
          "must be a single-colour loop, no colours loop may sit in a "
          "parallel region, and in the simulated execution no two iterations "
@@ -184,8 +200,11 @@ CLAIMED = {
               "isolated): seeded edit histories on a copy and its original, "
               "other side's written code as the observation",
     text="A seeded subtree of a generated module is copied with the real "
-         "copy(); equality, node disjointness and inner-scope symbol binding "
-         "are checked at copy time; then <=8 seeded edits (rename/add "
+         "copy() - the tree itself being the product of a seeded pre-copy "
+         "history (API-created mixed-case symbols, loops and calls, "
+         "ChunkLoopTrans); equality, node disjointness and scope-by-scope "
+         "symbol correspondence (each node of the copy holds the same-named "
+         "symbol of the corresponding scope) are checked at copy time; then <=8 seeded edits (rename/add "
          "symbols, replace literals/expressions, detach/insert statements, "
          "loop bounds, initial values) hit either side and after each the "
          "other side's FortranWriter text must be unchanged. Leaks are "
